@@ -34,6 +34,7 @@ REG = "ant_service_management::NodeRegistry"
 
 def run(R):
     port_rules(R)
+    R.whole_file_write("C19.registry.whole", "ant_service_management::NodeRegistry::save", "the registry saved after each step is replaced whole (loads back to the same state)")
     F = R.F
     owners = [NS + "on_start", NS + "on_stop", NS + "on_remove"]
     R.who_may_write("C19.own.status", NSD, "status", owners, floor=3, descr="NodeServiceData.status is assigned only in NodeService::on_start/on_stop/on_remove")
